@@ -374,7 +374,11 @@ pub fn builtin_remove_at(arr: ArrValue, at: i32) -> Result<ArrValue> {
 		return Ok(arr);
 	}
 	let newArrLeft = arr.clone().slice(None, Some(at), None);
-	let newArrRight = arr.slice(Some(at + 1), None, None);
+	let newArrRight = match at.checked_add(1) {
+		Some(next) => arr.slice(Some(next), None, None),
+		// Nothing can follow index i32::MAX
+		None => ArrValue::empty(),
+	};
 
 	Ok(ArrValue::extended(newArrLeft, newArrRight))
 }
